@@ -60,7 +60,7 @@ package manifest
 // C16: decoding a permission from its stack-item form (contract state read back from storage)
 // keeps the difference between "any method" (Null) and an explicit, possibly empty, list:
 // the wildcard is nil, a list is never nil.
-//@ prop C16
+//@ prop C16,C17
 //@ import stackitem github.com/nspcc-dev/neo-go/pkg/vm/stackitem
 //@ func (*PermissionDesc).FromStackItem
 //@ assumed
